@@ -20,7 +20,8 @@ PUBLISHED:
   int get_num_cells() const;
   int get_cell(int i) const;
   void set_cell(int i, int v);
-  MAKE_SEQ_PROPERTY(cells, get_num_cells, get_cell, set_cell);
+  void remove_cell(int i);
+  MAKE_SEQ_PROPERTY(cells, get_num_cells, get_cell, set_cell, remove_cell);
   int raw(int k) const;
 public:
   int _n;
@@ -46,6 +47,7 @@ int &IVec::operator [] (int i) { return _c[4 + i]; }
 int IVec::get_num_cells() const { return _n; }
 int IVec::get_cell(int i) const { return _c[4 + i]; }
 void IVec::set_cell(int i, int v) { _c[4 + i] = v; }
+void IVec::remove_cell(int i) { for (int k = i; k < _n - 1; ++k) _c[4 + k] = _c[4 + k + 1]; _c[4 + _n - 1] = -1; --_n; }
 int IVec::raw(int k) const { return _c[4 + k]; }
 RVec::RVec(int n) : _n(n) { fill(_c, n); }
 int RVec::size() const { return _n; }
@@ -57,7 +59,7 @@ KINDS = ["opidx", "seqprop", "roidx"]
 
 def expected(h, kind):
     """the observation the spec demands: per step [result, cells -3 .. n+2]"""
-    n, out = h["n"], []
+    n, out = h["n0"], []
     init = [-1] * 3 + [10 + k for k in range(n)] + [-1] * 3
     for op in h["ops"]:
         if kind == "roidx":
@@ -68,7 +70,7 @@ def expected(h, kind):
                 out.append([("EXC IndexError" if op["r"] == -99 else init[3 + (op["i"] % n if n else 0)]), init])
             continue
         r = "EXC IndexError" if op["r"] == -99 else op["r"]
-        out.append([r, [-1] * 3 + list(op["a"]) + [-1] * 3])
+        out.append([r, [-1] * 3 + list(op["a"]) + [-1] * (3 + n - len(op["a"]))])
     return out
 
 
@@ -87,7 +89,19 @@ def run_part(ctx, work, asan=False):
     if bad.verdict != "invariant" or bad.violated != "Refines":
         raise MachineryError("PySeqItem_nolower: expected Refines to be violated, got %s %s" % (bad.verdict, bad.violated))
     hists = sorted({json.dumps(r, sort_keys=True) for r in tlc.read_dump(dump)})
-    hists = [json.loads(x) for x in hists]
+    hists = [dict(h, n0=h["n"]) for h in map(json.loads, hists)]
+    # histories with deletions (del o.items[i]; only the MAKE_SEQ_PROPERTY style has a remover)
+    ddump = os.path.join(wd, "hist_del.ndjson")
+    dres = tlc.run("PySeqItemMC", "PySeqItem_del", workers=2, env={"VERIF_DUMP": ddump}, timeout=900)
+    ctx.add_tlc(dres)
+    if dres.verdict == "invariant":
+        raise MachineryError("PySeqItem_del: model invariant %s violated\n%s" % (dres.violated, dres.out[-2000:]))
+    tlc.must_ok(dres)
+    dh = [json.loads(x) for x in sorted({json.dumps(r, sort_keys=True) for r in tlc.read_dump(ddump)})]
+    dh = [dict(h, n0=h["n"] + sum(1 for o in h["ops"] if o["op"] == "del" and o["r"] == 0)) for h in dh
+          if any(o["op"] == "del" for o in h["ops"])]
+    if not dh:
+        raise MachineryError("PySeqItem_del: no history with a deletion dumped")
     if not hists:
         raise MachineryError("PySeqItem: no history dumped")
     if len(hists) > 45000:       # thorough: a fixed stratified cut of the sorted histories (independent of the seed)
@@ -105,7 +119,7 @@ def run_part(ctx, work, asan=False):
                       dict(stage=e.stage, detail=e.detail[-1500:], header=HDR))
         return dict(histories=0)
     from .c02 import run_driver       # the driver runner of the C02 check (child interpreter, flushes before each step)
-    cases = [dict(h, kind=k) for k in KINDS for h in hists]
+    cases = [dict(h, kind=k) for k in KINDS for h in hists] + [dict(h, kind="seqprop") for h in dh]
     sp, op = os.path.join(wd, "script.json"), os.path.join(wd, "out.ndjson")
     got, died, start, rc = {}, [], 0, 0
     for attempt in range(12):            # a history that kills the interpreter is reported and the rest is run again
@@ -135,24 +149,24 @@ def run_part(ctx, work, asan=False):
                 n_viol += 1
             continue
         exp = expected(c, c["kind"])
-        if o["len"] != c["n"]:
-            ctx.violation("[seqitem %s] len() of a sequence of %d items is %r" % (c["kind"], c["n"], o["len"]), dict(n=c["n"]))
+        if o["len"] != c["n0"]:
+            ctx.violation("[seqitem %s] len() of a sequence of %d items is %r" % (c["kind"], c["n0"], o["len"]), dict(n=c["n0"]))
         for k, (e, g) in enumerate(zip(exp, o["steps"])):
             n_steps += 1
             x = c["ops"][k]
             seen_classes.add((c["kind"], x["op"], "in" if x["r"] != -99 else ("below" if x["i"] < 0 else "above")))
             if e != g and n_viol < 40:
                 n_viol += 1
-                what = "o[%d]" % x["i"] if x["op"] == "get" else "o[%d] = %d" % (x["i"], x["v"])
+                what = "o[%d]" % x["i"] if x["op"] == "get" else ("del o[%d]" % x["i"] if x["op"] == "del" else "o[%d] = %d" % (x["i"], x["v"]))
                 ctx.violation("[seqitem %s] step %d `%s` on a sequence of %d items: result / cells (-3 .. n+2) %r, Python semantics demand %r"
-                              % (c["kind"], k + 1, what, c["n"], g, e),
+                              % (c["kind"], k + 1, what, c["n0"], g, e),
                               dict(kind=c["kind"], n=c["n"], ops=[[y["op"], y["i"], y["v"]] for y in c["ops"]], observed=o["steps"], expected=exp))
     if len(got) + len(died) < len(cases):
         raise MachineryError("seqitem: %d of %d histories have no observation (driver exit %s)" % (len(cases) - len(got) - len(died), len(cases), rc))
     want = {(k, op, cl) for k in KINDS for op in ("get", "set") for cl in ("in", "below", "above")}
     if not want <= seen_classes:
         raise MachineryError("seqitem: index classes never exercised: %s" % sorted(want - seen_classes))
-    info = dict(histories=len(cases), steps=n_steps, kinds=KINDS, lengths=sorted({h["n"] for h in hists}))
+    info = dict(histories=len(cases), steps=n_steps, kinds=KINDS, lengths=sorted({h["n0"] for h in hists}), histories_with_deletion=len(dh))
     ctx.notes["seqitem_part"] = info
     ctx.sample(dict(part="seqitem", kind=cases[-1]["kind"], n=cases[-1]["n"], ops=[[x["op"], x["i"], x["v"]] for x in cases[-1]["ops"]]))
     return info
